@@ -23,6 +23,9 @@ type c17CrossCase struct {
 	caller  crypto.PrivateKey
 	tx      func(w *fix.World) *pb.BxhTransaction
 	foreign []string // identifiers of the other parties involved (lower case)
+	// mustFail: the operation is reserved to the OTHER chain's own admin (the caller is the
+	// admin of a different appchain): it must be refused outright
+	mustFail bool
 }
 
 func c17CrossCases() []c17CrossCase {
@@ -35,20 +38,61 @@ func c17CrossCases() []c17CrossCase {
 		}
 	}
 	ka := fix.Addr(fix.KA).String()
-	return []c17CrossCase{
-		{"chain A's admin adds chain B's admin to A's admin list", fix.KA, upd(ka + "," + fix.Addr(fix.KB).String()), []string{kb, strings.ToLower(fix.ChainB)}},
-		{"chain A's admin adds a governance admin to A's admin list", fix.KA, upd(ka + "," + fix.Addr(fix.AdminKeys[1]).String()), []string{adm}},
-		{"chain A's admin replaces itself by chain B's admin", fix.KA, upd(fix.Addr(fix.KB).String()), []string{kb, strings.ToLower(fix.ChainB)}},
-		{"chain A's admin adds a fresh account (control: allowed)", fix.KA, upd(ka + "," + fresh), []string{kb, strings.ToLower(fix.ChainB), adm}},
+	out := []c17CrossCase{
+		{"chain A's admin adds chain B's admin to A's admin list", fix.KA, upd(ka + "," + fix.Addr(fix.KB).String()), []string{kb, strings.ToLower(fix.ChainB)}, false},
+		{"chain A's admin adds a governance admin to A's admin list", fix.KA, upd(ka + "," + fix.Addr(fix.AdminKeys[1]).String()), []string{adm}, false},
+		{"chain A's admin replaces itself by chain B's admin", fix.KA, upd(fix.Addr(fix.KB).String()), []string{kb, strings.ToLower(fix.ChainB)}, false},
+		{"chain A's admin adds a fresh account (control: allowed)", fix.KA, upd(ka + "," + fresh), []string{kb, strings.ToLower(fix.ChainB), adm}, false},
 		{"an unregistered chain registers naming chain B's admin as its admin", fix.KC, func(w *fix.World) *pb.BxhTransaction {
 			return w.InvokeTx(fix.KC, constant.AppchainMgrContractAddr, "RegisterAppchain",
 				pb.String(fix.ChainC), pb.String("name-"+fix.ChainC), pb.Bytes([]byte("")), pb.String("ETH"), pb.Bytes(nil),
 				pb.String("broker"), pb.String("desc"), pb.String("0x00000000000000000000000000000000000000a2"), pb.String("url"), pb.String(fix.Addr(fix.KC).String()+","+fix.Addr(fix.KB).String()), pb.String("reason"))
-		}, []string{kb, strings.ToLower(fix.ChainB)}},
+		}, []string{kb, strings.ToLower(fix.ChainB)}, false},
 		{"chain B's admin registers a service of chain A", fix.KB, func(w *fix.World) *pb.BxhTransaction {
 			return w.RegisterServiceTx(fix.KB, fix.ChainA, "0xB2dD6977169c5067d3729E3deB9a82c3e7502BF9", "")
-		}, []string{strings.ToLower(fix.Addr(fix.KA).String()), strings.ToLower(fix.ChainA)}},
+		}, []string{strings.ToLower(fix.Addr(fix.KA).String()), strings.ToLower(fix.ChainA)}, true},
 	}
+	// operations reserved to a chain's own admin, tried by the admin of the other chain, in
+	// BOTH directions (chain A was registered before chain B)
+	type other struct {
+		who    string
+		key    crypto.PrivateKey
+		chain  string
+		svc    string
+		victim crypto.PrivateKey
+	}
+	for _, o := range []other{
+		{"chain A's admin (registered first)", fix.KA, fix.ChainB, fix.Svc2, fix.KB},
+		{"chain B's admin (registered later)", fix.KB, fix.ChainA, fix.Svc1, fix.KA},
+	} {
+		o := o
+		foreign := []string{strings.ToLower(fix.Addr(o.victim).String()), strings.ToLower(o.chain)}
+		add := func(what string, mk func(w *fix.World) *pb.BxhTransaction) {
+			out = append(out, c17CrossCase{o.who + " " + what + " of " + o.chain, o.key, mk, foreign, true})
+		}
+		add("registers a service", func(w *fix.World) *pb.BxhTransaction {
+			return w.RegisterServiceTx(o.key, o.chain, "0xB2dD6977169c5067d3729E3deB9a82c3e7502BFa", "")
+		})
+		add("updates a service", func(w *fix.World) *pb.BxhTransaction {
+			return w.InvokeTx(o.key, constant.ServiceMgrContractAddr, "UpdateService", pb.String(o.chain+":"+o.svc), pb.String("taken-over"), pb.String("intro"), pb.String(""), pb.String("details"), pb.String("r"))
+		})
+		add("logs out a service", func(w *fix.World) *pb.BxhTransaction {
+			return w.InvokeTx(o.key, constant.ServiceMgrContractAddr, "LogoutService", pb.String(o.chain+":"+o.svc), pb.String("r"))
+		})
+		add("registers a rule", func(w *fix.World) *pb.BxhTransaction {
+			return w.InvokeTx(o.key, constant.RuleManagerContractAddr, "RegisterRule", pb.String(o.chain), pb.String("0x00000000000000000000000000000000000000a1"), pb.String("url"))
+		})
+		add("updates the master rule", func(w *fix.World) *pb.BxhTransaction {
+			return w.InvokeTx(o.key, constant.RuleManagerContractAddr, "UpdateMasterRule", pb.String(o.chain), pb.String("0x00000000000000000000000000000000000000a1"), pb.String("r"))
+		})
+		add("updates the appchain", func(w *fix.World) *pb.BxhTransaction {
+			return w.InvokeTx(o.key, constant.AppchainMgrContractAddr, "UpdateAppchain", pb.String(o.chain), pb.String("taken-over"), pb.String("desc"), pb.Bytes(nil), pb.String(fix.Addr(o.key).String()), pb.String("r"))
+		})
+		add("logs out the appchain", func(w *fix.World) *pb.BxhTransaction {
+			return w.InvokeTx(o.key, constant.AppchainMgrContractAddr, "LogoutAppchain", pb.String(o.chain), pb.String("r"))
+		})
+	}
+	return out
 }
 
 func c17Cross(c *mc.Ctx) {
@@ -75,6 +119,9 @@ func c17Cross(c *mc.Ctx) {
 			res := w.Block(k.tx(w))
 			rc := res.Receipts[0]
 			c.Add("cross_party_calls", 1)
+			if k.mustFail && rc.IsSuccess() {
+				c.Report("C17|cross-party|operation-reserved-to-the-chains-own-admin-accepted", fmt.Sprintf("%s: the receipt is SUCCESS (%s)", name, trunc(string(rc.Ret))), rep)
+			}
 			foreignChanged(fmt.Sprintf("after the call (receipt %v)", rc.Status))
 			if rc.IsSuccess() {
 				c.Add("cross_party_calls_accepted", 1)
@@ -86,7 +133,7 @@ func c17Cross(c *mc.Ctx) {
 			w.R.Close()
 		}
 	}
-	c.Set("rule_cross_party", "6 operations a party may perform on its own objects but carrying another party's identifiers (another chain's admin or a governance admin in an appchain's admin list, registration naming an occupied account, a service registered under another chain), audit off/on, each followed by the caller's withdrawal of the proposal it opened: no EXISTING stored record whose key contains the other party's address or chain id may be altered or removed (new markers keyed by that address are not judged)")
+	c.Set("rule_cross_party", "6 operations a party may perform on its own objects but carrying another party's identifiers, and 7 operations reserved to a chain's own admin (service register / update / logout, rule register, master-rule update, appchain update / logout) tried by the other chain's admin in both directions (must be refused) (another chain's admin or a governance admin in an appchain's admin list, registration naming an occupied account, a service registered under another chain), audit off/on, each followed by the caller's withdrawal of the proposal it opened: no EXISTING stored record whose key contains the other party's address or chain id may be altered or removed (new markers keyed by that address are not judged)")
 }
 
 func init() {
